@@ -1,4 +1,881 @@
 package main
 
-// placeholder: replaced by the lock/effect extractor
-func writeLocks(p *pkgInfo, dir string) error { return nil }
+// Lock/effect facts.
+//
+// For every exported method of *DB and *Search, every exported function, and every
+// `go func` literal of package sod, this file computes by abstract interpretation of the AST
+//   - the set of lock-event sequences (acquire/release of sync.RWMutex / sync.Mutex values,
+//     callees of the package inlined, defers run at function exit, branches as alternatives,
+//     loop bodies taken zero or one time and required to be balanced), and
+//   - the reads and writes of fields of the shared structures (DB, Schema, Async, objIndex,
+//     fieldIndex, objectStore, objectMap) together with the locks held at that point.
+// The result is written as Lean data (Generated/Locks.lean); the theorems in Props/C08.lean and
+// Props/C09.lean are statements about that data and are re-checked on every run.
+//
+// Assumptions (part of the trusted base, see DESIGN.md): calls through the Object interface and
+// through function values do not touch the handle; a callee whose receiver is a value freshly
+// built in the caller works on private memory; recursion is lock-free.
+
+import (
+	"fmt"
+	"go/ast"
+	"go/token"
+	"go/types"
+	"os"
+	"path/filepath"
+	"sort"
+	"strings"
+)
+
+type held struct {
+	cls  int
+	mode byte // 'R' or 'W'
+}
+
+// an abstract state of one thread inside a function: the locks it holds (most recent first,
+// exactly the list `Disc` of SodModel/Lock.lean maintains) and whether it has returned
+type outcome struct {
+	held     []held
+	returned bool
+	defers   []int // indices (into fctx.deferCalls) of the defer statements executed so far
+}
+
+func heldKey(hs []held) string {
+	h := []string{}
+	for _, x := range hs {
+		h = append(h, fmt.Sprintf("%d%c", x.cls, x.mode))
+	}
+	return strings.Join(h, ",")
+}
+
+func (o outcome) key() string { return fmt.Sprintf("%s|%v|%v", heldKey(o.held), o.returned, o.defers) }
+
+// one lock action together with the locks held just before it
+type step struct {
+	before []held
+	acq    bool
+	cls    int
+	mode   byte
+}
+
+func (s step) key() string { return fmt.Sprintf("%s|%v|%d%c", heldKey(s.before), s.acq, s.cls, s.mode) }
+
+type access struct {
+	region string
+	write  bool
+	held   []held
+	where  string
+}
+
+type summary struct {
+	outs     []outcome // states at function exit (defers run)
+	steps    []step    // every lock action that can happen inside, with the locks held before it
+	accesses []access
+}
+
+type lockX struct {
+	p         *pkgInfo
+	decls     map[*types.Func]*ast.FuncDecl
+	memo      map[string]*summary
+	stack     map[string]bool
+	recursive map[string]bool
+	lockCls   map[string]int
+	lockNames []string
+	errors    []string
+	goEntries []goEntry
+	shared    map[string]bool
+}
+
+type goEntry struct {
+	name string
+	lit  *ast.FuncLit
+	fn   *ast.FuncDecl
+}
+
+func newLockX(p *pkgInfo) *lockX {
+	x := &lockX{p: p, decls: map[*types.Func]*ast.FuncDecl{}, memo: map[string]*summary{}, stack: map[string]bool{},
+		recursive: map[string]bool{}, lockCls: map[string]int{},
+		shared: map[string]bool{"DB": true, "Schema": true, "Async": true, "objIndex": true, "fieldIndex": true, "objectStore": true, "objectMap": true}}
+	// fixed ranks of the known lock classes (anything else gets the next rank)
+	for _, n := range []string{"DB.l", "objectStore.RWMutex", "objectMap.RWMutex", "DB.sl"} {
+		x.lockCls[n] = len(x.lockNames)
+		x.lockNames = append(x.lockNames, n)
+	}
+	for _, f := range p.files {
+		for _, d := range f.Decls {
+			if fd, ok := d.(*ast.FuncDecl); ok && fd.Body != nil {
+				if obj, ok := p.info.Defs[fd.Name].(*types.Func); ok {
+					x.decls[obj] = fd
+				}
+			}
+		}
+	}
+	return x
+}
+
+func (x *lockX) cls(name string) int {
+	if c, ok := x.lockCls[name]; ok {
+		return c
+	}
+	c := len(x.lockNames)
+	x.lockCls[name] = c
+	x.lockNames = append(x.lockNames, name)
+	return c
+}
+
+func namedOf(t types.Type) *types.Named {
+	for {
+		switch tt := t.(type) {
+		case *types.Pointer:
+			t = tt.Elem()
+		case *types.Named:
+			return tt
+		default:
+			return nil
+		}
+	}
+}
+
+func isSyncLock(t types.Type) bool {
+	n := namedOf(t)
+	return n != nil && n.Obj().Pkg() != nil && n.Obj().Pkg().Path() == "sync" && (n.Obj().Name() == "RWMutex" || n.Obj().Name() == "Mutex")
+}
+
+// lockCall recognises x.Lock()/RLock()/Unlock()/RUnlock() on a sync lock and names the lock.
+func (x *lockX) lockCall(call *ast.CallExpr) (name string, acq bool, mode byte, ok bool) {
+	sel, isSel := call.Fun.(*ast.SelectorExpr)
+	if !isSel {
+		return
+	}
+	fn, _ := x.p.info.Uses[sel.Sel].(*types.Func)
+	if fn == nil || fn.Pkg() == nil || fn.Pkg().Path() != "sync" {
+		return
+	}
+	switch sel.Sel.Name {
+	case "Lock":
+		acq, mode = true, 'W'
+	case "RLock":
+		acq, mode = true, 'R'
+	case "Unlock":
+		acq, mode = false, 'W'
+	case "RUnlock":
+		acq, mode = false, 'R'
+	default:
+		return
+	}
+	// the lock is either a field (db.l) or embedded in the receiver's struct (m.Lock() on *objectMap)
+	xt := x.p.info.Types[sel.X].Type
+	if isSyncLock(xt) {
+		if inner, isSel2 := sel.X.(*ast.SelectorExpr); isSel2 {
+			owner := namedOf(x.p.info.Types[inner.X].Type)
+			if owner != nil {
+				return owner.Obj().Name() + "." + inner.Sel.Name, acq, mode, true
+			}
+		}
+		return "local." + types.ExprString(sel.X), acq, mode, true
+	}
+	owner := namedOf(xt)
+	if owner != nil {
+		embedded := "RWMutex"
+		if s := x.p.info.Selections[sel]; s != nil {
+			if n := namedOf(s.Obj().(*types.Func).Type().(*types.Signature).Recv().Type()); n != nil {
+				embedded = n.Obj().Name()
+			}
+		}
+		return owner.Obj().Name() + "." + embedded, acq, mode, true
+	}
+	return
+}
+
+type fctx struct {
+	x        *lockX
+	name     string
+	fresh    map[types.Object]bool // local variables holding private memory
+	dropAcc  bool                  // receiver is private: accesses are not recorded
+	deferCalls []*ast.CallExpr
+	accesses   []access
+	steps      []step
+}
+
+func cloneHeld(h []held) []held { return append([]held{}, h...) }
+
+func dedup(os []outcome) []outcome {
+	seen := map[string]bool{}
+	out := []outcome{}
+	for _, o := range os {
+		k := o.key()
+		if !seen[k] {
+			seen[k] = true
+			out = append(out, o)
+		}
+	}
+	return out
+}
+
+func (c *fctx) addEvent(o outcome, acq bool, cls int, mode byte) outcome {
+	c.steps = append(c.steps, step{before: cloneHeld(o.held), acq: acq, cls: cls, mode: mode})
+	n := outcome{held: cloneHeld(o.held), returned: o.returned, defers: o.defers}
+	if acq {
+		n.held = append([]held{{cls, mode}}, n.held...)
+	} else {
+		for i := 0; i < len(n.held); i++ {
+			if n.held[i].cls == cls && n.held[i].mode == mode {
+				n.held = append(n.held[:i], n.held[i+1:]...)
+				break
+			}
+		}
+	}
+	return n
+}
+
+// funcKey identifies a summary (the same function is summarised separately for a private receiver)
+func funcKey(fn *types.Func, in []held, drop bool) string {
+	return fmt.Sprintf("%s/%s/%v", fn.FullName(), heldKey(in), drop)
+}
+
+// summarise analyses a function of the package entered with the locks `in` held.
+func (x *lockX) summarise(fn *types.Func, in []held, drop bool) *summary {
+	k := funcKey(fn, in, drop)
+	if s, ok := x.memo[k]; ok {
+		return s
+	}
+	if x.stack[k] {
+		x.recursive[k] = true
+		return &summary{outs: []outcome{{held: cloneHeld(in)}}}
+	}
+	fd := x.decls[fn]
+	if fd == nil {
+		return &summary{outs: []outcome{{held: cloneHeld(in)}}}
+	}
+	x.stack[k] = true
+	s := x.summariseBody(fd.Type, fd.Recv, fd.Body, in, drop, fnName(fd))
+	delete(x.stack, k)
+	if x.recursive[k] && len(s.steps) > 0 {
+		x.errors = append(x.errors, "recursive function with lock events: "+fn.FullName())
+	}
+	x.memo[k] = s
+	return s
+}
+
+func fnName(fd *ast.FuncDecl) string {
+	if fd.Recv != nil && len(fd.Recv.List) > 0 {
+		return strings.TrimPrefix(types.ExprString(fd.Recv.List[0].Type), "*") + "." + fd.Name.Name
+	}
+	return fd.Name.Name
+}
+
+func (x *lockX) summariseBody(typ *ast.FuncType, recv *ast.FieldList, body *ast.BlockStmt, in []held, drop bool, full string) *summary {
+	c := &fctx{x: x, name: full, fresh: map[types.Object]bool{}, dropAcc: drop}
+	// by-value struct parameters and receivers are private copies
+	mark := func(fl *ast.FieldList) {
+		if fl == nil {
+			return
+		}
+		for _, f := range fl.List {
+			for _, n := range f.Names {
+				if obj := x.p.info.Defs[n]; obj != nil {
+					if _, isPtr := obj.Type().(*types.Pointer); !isPtr {
+						if _, isStruct := obj.Type().Underlying().(*types.Struct); isStruct {
+							c.fresh[obj] = true
+						}
+					}
+				}
+			}
+		}
+	}
+	mark(recv)
+	mark(typ.Params)
+	outs := c.block(body.List, []outcome{{held: cloneHeld(in)}})
+	// function exit: run defers (reverse order) on every outcome
+	final := []outcome{}
+	for _, o := range outs {
+		o.returned = false
+		ds := o.defers
+		o.defers = nil
+		cur := []outcome{o}
+		for i := len(ds) - 1; i >= 0; i-- {
+			cur = c.call(c.deferCalls[ds[i]], cur)
+		}
+		for j := range cur {
+			cur[j].defers = nil
+		}
+		final = append(final, cur...)
+	}
+	return &summary{outs: dedup(final), accesses: c.accesses, steps: c.steps}
+}
+
+func (c *fctx) block(stmts []ast.Stmt, in []outcome) []outcome {
+	cur := in
+	for _, s := range stmts {
+		cur = c.stmt(s, cur)
+	}
+	return cur
+}
+
+// split separates outcomes that already returned (they skip the statement)
+func split(in []outcome) (live, done []outcome) {
+	for _, o := range in {
+		if o.returned {
+			done = append(done, o)
+		} else {
+			live = append(live, o)
+		}
+	}
+	return
+}
+
+func (c *fctx) stmt(s ast.Stmt, in []outcome) []outcome {
+	live, done := split(in)
+	if len(live) == 0 {
+		return in
+	}
+	var out []outcome
+	switch st := s.(type) {
+	case *ast.ExprStmt:
+		out = c.expr(st.X, live, false)
+	case *ast.AssignStmt:
+		out = live
+		for _, r := range st.Rhs {
+			out = c.expr(r, out, false)
+		}
+		for i, l := range st.Lhs {
+			out = c.expr(l, out, true)
+			// freshness of := definitions
+			if id, ok := l.(*ast.Ident); ok && i < len(st.Rhs) && len(st.Lhs) == len(st.Rhs) {
+				obj := c.x.p.info.Defs[id]
+				if obj == nil {
+					obj = c.x.p.info.Uses[id]
+				}
+				if v, isVar := obj.(*types.Var); isVar && !v.IsField() && v.Parent() != c.x.p.pkg.Scope() {
+					// a local variable (or named result) now designates what the right-hand side built
+					c.fresh[obj] = c.isFreshExpr(st.Rhs[i])
+				}
+			}
+		}
+	case *ast.IncDecStmt:
+		out = c.expr(st.X, live, true)
+	case *ast.DeclStmt:
+		out = live
+		if gd, ok := st.Decl.(*ast.GenDecl); ok {
+			for _, sp := range gd.Specs {
+				if vs, ok := sp.(*ast.ValueSpec); ok {
+					for _, v := range vs.Values {
+						out = c.expr(v, out, false)
+					}
+				}
+			}
+		}
+	case *ast.ReturnStmt:
+		out = live
+		for _, r := range st.Results {
+			out = c.expr(r, out, false)
+		}
+		for i := range out {
+			out[i].returned = true
+		}
+	case *ast.BlockStmt:
+		out = c.block(st.List, live)
+	case *ast.IfStmt:
+		cur := live
+		if st.Init != nil {
+			cur = c.stmt(st.Init, cur)
+		}
+		cur = c.expr(st.Cond, cur, false)
+		thenO := c.block(st.Body.List, cur)
+		var elseO []outcome
+		if st.Else != nil {
+			elseO = c.stmt(st.Else, cur)
+		} else {
+			elseO = cur
+		}
+		out = append(append([]outcome{}, thenO...), elseO...)
+	case *ast.ForStmt:
+		cur := live
+		if st.Init != nil {
+			cur = c.stmt(st.Init, cur)
+		}
+		if st.Cond != nil {
+			cur = c.expr(st.Cond, cur, false)
+		}
+		out = c.loop(st.Body, st.Post, cur)
+	case *ast.RangeStmt:
+		cur := c.expr(st.X, live, false)
+		out = c.loop(st.Body, nil, cur)
+	case *ast.SwitchStmt:
+		cur := live
+		if st.Init != nil {
+			cur = c.stmt(st.Init, cur)
+		}
+		if st.Tag != nil {
+			cur = c.expr(st.Tag, cur, false)
+		}
+		out = c.clauses(st.Body, cur)
+	case *ast.TypeSwitchStmt:
+		cur := live
+		if st.Init != nil {
+			cur = c.stmt(st.Init, cur)
+		}
+		cur = c.stmt(st.Assign, cur)
+		out = c.clauses(st.Body, cur)
+	case *ast.SelectStmt:
+		out = c.clauses(st.Body, live)
+	case *ast.DeferStmt:
+		c.deferCalls = append(c.deferCalls, st.Call)
+		idx := len(c.deferCalls) - 1
+		out = []outcome{}
+		for _, o := range live {
+			o.defers = append(append([]int{}, o.defers...), idx)
+			out = append(out, o)
+		}
+	case *ast.GoStmt:
+		if lit, ok := st.Call.Fun.(*ast.FuncLit); ok {
+			c.x.goEntries = append(c.x.goEntries, goEntry{name: "go:" + c.name, lit: lit})
+		}
+		out = live
+	case *ast.LabeledStmt:
+		out = c.stmt(st.Stmt, live)
+	case *ast.SendStmt:
+		out = c.expr(st.Value, c.expr(st.Chan, live, false), false)
+	default: // BranchStmt, EmptyStmt …
+		out = live
+	}
+	return dedup(append(out, done...))
+}
+
+func (c *fctx) loop(body *ast.BlockStmt, post ast.Stmt, in []outcome) []outcome {
+	once := c.block(body.List, in)
+	if post != nil {
+		once = c.stmt(post, once)
+	}
+	// a loop body must give back what it took (unless it returns)
+	for _, o := range once {
+		if o.returned {
+			continue
+		}
+		ok := false
+		for _, i := range in {
+			if fmt.Sprint(i.held) == fmt.Sprint(o.held) {
+				ok = true
+			}
+		}
+		if !ok {
+			c.x.errors = append(c.x.errors, "unbalanced loop in "+c.name)
+		}
+	}
+	return append(append([]outcome{}, in...), once...)
+}
+
+func (c *fctx) clauses(body *ast.BlockStmt, in []outcome) []outcome {
+	out := append([]outcome{}, in...) // no clause taken
+	for _, cl := range body.List {
+		switch cc := cl.(type) {
+		case *ast.CaseClause:
+			cur := in
+			for _, e := range cc.List {
+				cur = c.expr(e, cur, false)
+			}
+			out = append(out, c.block(cc.Body, cur)...)
+		case *ast.CommClause:
+			cur := in
+			if cc.Comm != nil {
+				cur = c.stmt(cc.Comm, cur)
+			}
+			out = append(out, c.block(cc.Body, cur)...)
+		}
+	}
+	return out
+}
+
+func (c *fctx) isFreshExpr(e ast.Expr) bool {
+	switch v := e.(type) {
+	case *ast.CompositeLit:
+		return true
+	case *ast.UnaryExpr:
+		if v.Op == token.AND {
+			_, ok := v.X.(*ast.CompositeLit)
+			return ok
+		}
+	case *ast.CallExpr:
+		switch f := v.Fun.(type) {
+		case *ast.Ident:
+			n := f.Name
+			return n == "make" || n == "new" || strings.HasPrefix(n, "new") || strings.HasPrefix(n, "empty") || strings.HasPrefix(n, "New")
+		case *ast.SelectorExpr:
+			n := f.Sel.Name
+			return strings.HasPrefix(n, "new") || strings.HasPrefix(n, "makeTmp") || strings.HasPrefix(n, "empty")
+		}
+	}
+	return false
+}
+
+// baseIdent returns the identifier at the root of a selector / index / star chain.
+func baseIdent(e ast.Expr) *ast.Ident {
+	for {
+		switch v := e.(type) {
+		case *ast.Ident:
+			return v
+		case *ast.SelectorExpr:
+			e = v.X
+		case *ast.IndexExpr:
+			e = v.X
+		case *ast.SliceExpr:
+			e = v.X
+		case *ast.StarExpr:
+			e = v.X
+		case *ast.ParenExpr:
+			e = v.X
+		default:
+			return nil
+		}
+	}
+}
+
+func (c *fctx) record(sel *ast.SelectorExpr, write bool, outs []outcome) {
+	if c.dropAcc {
+		return
+	}
+	owner := namedOf(c.x.p.info.Types[sel.X].Type)
+	if owner == nil || owner.Obj().Pkg() != c.x.p.pkg || !c.x.shared[owner.Obj().Name()] {
+		return
+	}
+	s := c.x.p.info.Selections[sel]
+	if s == nil || s.Kind() != types.FieldVal {
+		return
+	}
+	if isSyncLock(s.Obj().Type()) {
+		return
+	}
+	if id := baseIdent(sel.X); id != nil {
+		if obj := c.x.p.info.Uses[id]; obj != nil && c.fresh[obj] {
+			return
+		}
+	} else {
+		return // rooted in a call result / literal: private
+	}
+	region := owner.Obj().Name() + "." + sel.Sel.Name
+	pos := c.x.p.fset.Position(sel.Pos())
+	for _, o := range outs {
+		c.accesses = append(c.accesses, access{region: region, write: write, held: cloneHeld(o.held),
+			where: fmt.Sprintf("%s:%d", filepath.Base(pos.Filename), pos.Line)})
+	}
+}
+
+// expr walks an expression in evaluation order; `write` says the expression is assigned to.
+func (c *fctx) expr(e ast.Expr, in []outcome, write bool) []outcome {
+	if e == nil {
+		return in
+	}
+	switch v := e.(type) {
+	case *ast.CallExpr:
+		return c.call(v, in)
+	case *ast.SelectorExpr:
+		out := c.expr(v.X, in, false)
+		c.record(v, write, out)
+		return out
+	case *ast.IndexExpr:
+		out := c.expr(v.Index, in, false)
+		return c.expr(v.X, out, write) // writing an element writes the container
+	case *ast.SliceExpr:
+		out := in
+		for _, s := range []ast.Expr{v.Low, v.High, v.Max} {
+			out = c.expr(s, out, false)
+		}
+		return c.expr(v.X, out, write)
+	case *ast.StarExpr:
+		return c.expr(v.X, in, write)
+	case *ast.ParenExpr:
+		return c.expr(v.X, in, write)
+	case *ast.UnaryExpr:
+		return c.expr(v.X, in, false)
+	case *ast.BinaryExpr:
+		return c.expr(v.Y, c.expr(v.X, in, false), false)
+	case *ast.KeyValueExpr:
+		return c.expr(v.Value, c.expr(v.Key, in, false), false)
+	case *ast.CompositeLit:
+		out := in
+		for _, el := range v.Elts {
+			out = c.expr(el, out, false)
+		}
+		return out
+	case *ast.TypeAssertExpr:
+		return c.expr(v.X, in, false)
+	case *ast.FuncLit:
+		return in // evaluated when called; only `go` and `defer` literals are followed
+	}
+	return in
+}
+
+func (c *fctx) call(call *ast.CallExpr, in []outcome) []outcome {
+	out := in
+	// builtins that write their first argument
+	if id, ok := call.Fun.(*ast.Ident); ok && (id.Name == "delete" || id.Name == "copy") && len(call.Args) > 0 {
+		if _, isBuiltin := c.x.p.info.Uses[id].(*types.Builtin); isBuiltin {
+			out = c.expr(call.Args[0], out, true)
+			for _, a := range call.Args[1:] {
+				out = c.expr(a, out, false)
+			}
+			return out
+		}
+	}
+	for _, a := range call.Args {
+		out = c.expr(a, out, false)
+	}
+	// decoding into &v builds a new value: v is private until it is published
+	if fname := types.ExprString(call.Fun); fname == "unmarshalJsonFile" || fname == "json.Unmarshal" {
+		for _, a := range call.Args {
+			if u, ok := a.(*ast.UnaryExpr); ok && u.Op == token.AND {
+				if id, ok := u.X.(*ast.Ident); ok {
+					if obj := c.x.p.info.Uses[id]; obj != nil {
+						c.fresh[obj] = true
+					}
+				}
+			}
+		}
+	}
+	if name, acq, mode, ok := c.x.lockCall(call); ok {
+		// the receiver expression is evaluated, not recorded (a lock is not a data region)
+		cls := c.x.cls(name)
+		res := []outcome{}
+		for _, o := range out {
+			res = append(res, c.addEvent(o, acq, cls, mode))
+		}
+		return res
+	}
+	var fn *types.Func
+	private := false
+	switch f := call.Fun.(type) {
+	case *ast.Ident:
+		fn, _ = c.x.p.info.Uses[f].(*types.Func)
+	case *ast.SelectorExpr:
+		fn, _ = c.x.p.info.Uses[f.Sel].(*types.Func)
+		out = c.expr(f.X, out, false)
+		if id := baseIdent(f.X); id != nil {
+			if obj := c.x.p.info.Uses[id]; obj != nil && c.fresh[obj] {
+				private = true
+			}
+		}
+		// json.Marshal of the schema reads the whole index
+		if x, ok := f.X.(*ast.Ident); ok && x.Name == "json" && strings.HasPrefix(f.Sel.Name, "Marshal") && len(call.Args) > 0 {
+			if n := namedOf(c.x.p.info.Types[call.Args[0]].Type); n != nil && n.Obj().Name() == "Schema" && !c.dropAcc {
+				for _, r := range []string{"Schema.Fields", "Schema.Cache", "Schema.AsyncWrites", "Schema.ObjectIndex", "objIndex.Fields", "objIndex.ObjectIds", "fieldIndex.Index"} {
+					for _, o := range out {
+						c.accesses = append(c.accesses, access{region: r, write: false, held: cloneHeld(o.held), where: "json.Marshal(schema)"})
+					}
+				}
+			}
+		}
+	case *ast.FuncLit:
+		// immediately invoked literal (defer func(){…}())
+		res := []outcome{}
+		for _, o := range out {
+			sm := c.x.summariseBody(f.Type, nil, f.Body, o.held, c.dropAcc, c.name+"$lit")
+			res = append(res, c.apply(sm, o)...)
+		}
+		return dedup(res)
+	}
+	if fn == nil || fn.Pkg() != c.x.p.pkg {
+		return out
+	}
+	if recv := fn.Type().(*types.Signature).Recv(); recv != nil {
+		if _, isIface := recv.Type().Underlying().(*types.Interface); isIface {
+			return out // user code behind the Object interface
+		}
+	}
+	res := []outcome{}
+	for _, o := range out {
+		res = append(res, c.apply(c.x.summarise(fn, o.held, c.dropAcc || private), o)...)
+	}
+	return dedup(res)
+}
+
+// apply merges the facts of a callee (analysed with the caller's locks) into the caller.
+func (c *fctx) apply(s *summary, o outcome) []outcome {
+	if !c.dropAcc {
+		c.accesses = append(c.accesses, s.accesses...)
+	}
+	c.steps = append(c.steps, s.steps...)
+	res := []outcome{}
+	for _, p := range s.outs {
+		res = append(res, outcome{held: cloneHeld(p.held), returned: o.returned, defers: o.defers})
+	}
+	return res
+}
+
+// ---------------------------------------------------------------------------
+
+func leanHeld(hs []held) string {
+	parts := []string{}
+	for _, h := range hs {
+		parts = append(parts, fmt.Sprintf("((%d, 0), .%c)", h.cls, h.mode))
+	}
+	return "[" + strings.Join(parts, ", ") + "]"
+}
+
+func writeLocks(p *pkgInfo, dir string) error {
+	x := newLockX(p)
+	type entry struct {
+		name   string
+		steps  []step
+		finals [][]held
+	}
+	entries := []entry{}
+	allAcc := []access{}
+	var fns []*types.Func
+	for fn := range x.decls {
+		fns = append(fns, fn)
+	}
+	sort.Slice(fns, func(i, j int) bool { return fns[i].FullName() < fns[j].FullName() })
+	addEntry := func(name string, s *summary) {
+		e := entry{name: name}
+		seen := map[string]bool{}
+		for _, st := range s.steps {
+			if !seen[st.key()] {
+				seen[st.key()] = true
+				e.steps = append(e.steps, st)
+			}
+		}
+		sort.Slice(e.steps, func(i, j int) bool { return e.steps[i].key() < e.steps[j].key() })
+		fseen := map[string]bool{}
+		for _, o := range s.outs {
+			if !fseen[heldKey(o.held)] {
+				fseen[heldKey(o.held)] = true
+				e.finals = append(e.finals, o.held)
+			}
+		}
+		entries = append(entries, e)
+		for _, a := range s.accesses {
+			a.where = name + "@" + a.where
+			allAcc = append(allAcc, a)
+		}
+	}
+	for _, fn := range fns {
+		fd := x.decls[fn]
+		if !fd.Name.IsExported() {
+			continue
+		}
+		recv := ""
+		if fd.Recv != nil && len(fd.Recv.List) > 0 {
+			recv = strings.TrimPrefix(types.ExprString(fd.Recv.List[0].Type), "*")
+		}
+		if recv != "DB" && recv != "Search" && recv != "" {
+			continue
+		}
+		// the exported lock wrappers are not API calls: they are the lock itself
+		if recv == "DB" && (fd.Name.Name == "Lock" || fd.Name.Name == "RLock" || fd.Name.Name == "Unlock" || fd.Name.Name == "RUnlock") {
+			continue
+		}
+		addEntry(fnName(fd), x.summarise(fn, nil, false))
+	}
+	// goroutines (discovered while summarising; a goroutine may spawn others)
+	for i := 0; i < len(x.goEntries); i++ {
+		g := x.goEntries[i]
+		dup := false
+		for _, e := range entries {
+			if e.name == g.name {
+				dup = true
+			}
+		}
+		if !dup {
+			addEntry(g.name, x.summariseBody(g.lit.Type, nil, g.lit.Body, nil, false, g.name))
+		}
+	}
+	if len(x.errors) > 0 {
+		sort.Strings(x.errors)
+		return fmt.Errorf("unsupported constructs: %s", strings.Join(x.errors, "; "))
+	}
+	// regions and deduplicated accesses
+	regions := map[string]int{}
+	regNames := []string{}
+	type accKey struct {
+		region int
+		write  bool
+		held   string
+	}
+	seen := map[accKey]string{}
+	keys := []accKey{}
+	for _, a := range allAcc {
+		r, ok := regions[a.region]
+		if !ok {
+			r = len(regNames)
+			regions[a.region] = r
+			regNames = append(regNames, a.region)
+		}
+		hs := []string{}
+		// a lock held twice is listed once, strongest mode
+		best := map[int]byte{}
+		for _, h := range a.held {
+			if best[h.cls] != 'W' {
+				best[h.cls] = h.mode
+			}
+		}
+		cs := []int{}
+		for c := range best {
+			cs = append(cs, c)
+		}
+		sort.Ints(cs)
+		for _, c := range cs {
+			hs = append(hs, fmt.Sprintf("(%d, .%c)", c, best[c]))
+		}
+		k := accKey{r, a.write, strings.Join(hs, ", ")}
+		if _, ok := seen[k]; !ok {
+			seen[k] = a.where
+			keys = append(keys, k)
+		}
+	}
+	sort.Slice(keys, func(i, j int) bool {
+		if keys[i].region != keys[j].region {
+			return keys[i].region < keys[j].region
+		}
+		if keys[i].write != keys[j].write {
+			return !keys[i].write
+		}
+		return keys[i].held < keys[j].held
+	})
+
+	b := &strings.Builder{}
+	b.WriteString("/- GENERATED by /verif/extract from /repo's working tree — do not edit. -/\nimport SodModel.Lock\nnamespace Generated.Locks\nopen Sod.Lock\n\n")
+	b.WriteString("/-- lock classes, index = rank -/\ndef lockNames : List String := [")
+	for i, n := range x.lockNames {
+		if i > 0 {
+			b.WriteString(", ")
+		}
+		b.WriteString(leanStr(n))
+	}
+	b.WriteString("]\n\n/-- for every exported entry point and goroutine: every lock action that can occur, with the\n    locks held just before it, and the locks held when it ends -/\ndef entries : List EntryFacts := [\n")
+	for i, e := range entries {
+		ss := []string{}
+		for _, st := range e.steps {
+			k := "rel"
+			if st.acq {
+				k = "acq"
+			}
+			ss = append(ss, fmt.Sprintf("(%s, .%s (%d, 0) .%c)", leanHeld(st.before), k, st.cls, st.mode))
+		}
+		fs := []string{}
+		for _, f := range e.finals {
+			fs = append(fs, leanHeld(f))
+		}
+		sep := ","
+		if i == len(entries)-1 {
+			sep = ""
+		}
+		fmt.Fprintf(b, "  { name := %s,\n    steps := [%s],\n    finals := [%s] }%s\n", leanStr(e.name), strings.Join(ss, ",\n      "), strings.Join(fs, ", "), sep)
+	}
+	b.WriteString("]\n\n/-- shared memory regions, index = region id -/\ndef regionNames : List String := [")
+	for i, n := range regNames {
+		if i > 0 {
+			b.WriteString(", ")
+		}
+		b.WriteString(leanStr(n))
+	}
+	b.WriteString("]\n\n/-- distinct (region, read/write, locks held) facts; `entry` is unused (0) -/\ndef accesses : List Access := [\n")
+	for i, k := range keys {
+		sep := ","
+		if i == len(keys)-1 {
+			sep = ""
+		}
+		fmt.Fprintf(b, "  { entry := 0, region := %d, write := %v, held := [%s] }%s  -- %s %s\n", k.region, k.write, k.held, sep, regNames[k.region], seen[k])
+	}
+	b.WriteString("]\n\nend Generated.Locks\n")
+	return os.WriteFile(filepath.Join(dir, "Locks.lean"), []byte(b.String()), 0644)
+}
